@@ -104,6 +104,34 @@ CHECKS = {
         note="animations started before the main loop; a device 'step' is a pass in which the display is written; frame contents are not compared between host and device (the property does not ask for it)",
         technique="explicit-state BFS (host) + deviation-bounded schedule enumeration over the virtual clock (device)",
     ),
+    "C03": dict(
+        category="model_checking",
+        text="Catalogue of 12 numeric fold sites and 5 container sites x supply modes (literal, 30 name-free expressions, name bound once, name re-bound on one of 10 control-flow paths before/after the site in setup or in the main loop, sibling arm, inside a helper; strings/lists mutated by append/remove/+=/re-binding on those paths, thorough: ordered pairs of paths) x inputs choosing which path runs; every program is run on the mock core and compared with CPython, and equal-valued literal/expression/name variants must give equal firmware traces.",
+        design_ref="DESIGN.md §2 C03",
+        note="expressions whose operators have C semantics when NOT folded (negative // and %, **, value-returning and/or: C01 findings) are used at folding sites only",
+        technique="exhaustive enumeration of fold site x supply mode x control-flow path + differential and metamorphic execution",
+    ),
+    "C06": dict(
+        category="exploration",
+        text="Pairwise-complete (thorough: triple-complete on the core) product of ~90 language/device features incl. every device kind before the loop and at its top, helper functions defined before and after the declarations they use, variables first assigned in if/for/while/try/nested blocks with int/float/str/bool values in setup and loop; every accepted program must compile and link against the mock core, define one setup() and one loop(), include the header of every library class it instantiates. Every printable-ASCII string literal of length <=2 plus non-ASCII and escape-heavy specials in mon.write, f-string literal parts and LCD text is compiled, run and compared with CPython.",
+        design_ref="DESIGN.md §2 C06",
+        note="compiler = host clang++ with exceptions enabled, mock headers instead of the Arduino core",
+        technique="pairwise/triple-wise exhaustive feature combination + compile/link oracle; exhaustive short string literals + differential execution",
+    ),
+    "C09": dict(
+        category="model_checking",
+        text="All list/str histories k<=2 (+k=3 core; thorough k<=3, k=4 core) over literals, ascending/descending/empty comprehensions, append/remove, indexing incl. negative indices, len-guarded removal, string growth/reset, loop-local lists, in three placements with N=4 passes; firmware built with ASan+UBSan and an interposed operator new/delete; oracle: no sanitizer/allocator report, values equal CPython, live heap bytes constant across passes whenever the program's observable state is periodic.",
+        design_ref="DESIGN.md §2 C09",
+        note="String uses malloc and is outside the live-byte count; periodicity recognised through printed observations",
+        technique="exhaustive enumeration of operation histories executed under AddressSanitizer/UBSan with heap accounting",
+    ),
+    "C14": dict(
+        category="exploration",
+        text="Complete product servos 0-2 (every before-loop/loop-top split) x parallel LCDs 0-2 x I2C LCDs 0-2 (both declaration orders) x other devices x with/without animation; for each script lib_deps == included library headers == instantiated library classes == libraries needed by the declared devices, no duplicates; evaluated forward twice and in reverse in one interpreter (history dependence); representatives compiled against header-scoped mock classes.",
+        design_ref="DESIGN.md §2 C14",
+        note="LCDs declared before the loop, servos before it or at its top",
+        technique="exhaustive enumeration of device multiplicities and placements with a three-way set-agreement oracle",
+    ),
 }
 
 NOT_YET = {}
